@@ -98,34 +98,45 @@ def run(P, item):
         snap = snapshot(P, log, subjs, used)
         for n in used:
             ks, qs = view(*snap[n]); pre[n] = (list(ks), list(qs), [v for k, v in snap[n][0].items])
-        # ---- the request
-        ret = None; pred = Pred(ctx)
-        if mode == 'group':
-            kind, name = item['kind2'], item['name']
-            fn = {'tag': 'invalidate_by_tag', 'event': 'invalidate_by_event', 'dep': 'invalidate_by_dependency', 'cache': 'invalidate_cache'}[kind]
-            f = P.resolve('cachelito_core::invalidation::' + fn) or P.resolve('invalidation::' + fn)
-            if f is None: raise Unsupported('free function ' + fn)
-            ret = run_single(ctx, I.call_fn(ctx, f, [Ref(Cell(Str(name), 'name'))]))
-        elif mode == 'with':
-            name = item['name']
-            f = P.resolve('invalidation::invalidate_with')
-            p = EnvFn('pred', lambda c, A, name=name: pred.verdict(name, deref_all(A[0])))
-            ret = run_single(ctx, I.call_fn(ctx, f, [Ref(Cell(Str(name), 'name')), p]))
-        elif mode == 'all_with':
+        # ---- the request (optionally issued twice, with the caches re-populated in between: the registry is stateful)
+        pred = Pred(ctx)
+        def request():
+            if mode == 'group':
+                kind, name = item['kind2'], item['name']
+                fn = {'tag': 'invalidate_by_tag', 'event': 'invalidate_by_event', 'dep': 'invalidate_by_dependency', 'cache': 'invalidate_cache'}[kind]
+                f = P.resolve('cachelito_core::invalidation::' + fn) or P.resolve('invalidation::' + fn)
+                if f is None: raise Unsupported('free function ' + fn)
+                return run_single(ctx, I.call_fn(ctx, f, [Ref(Cell(Str(name), 'name'))]))
+            if mode == 'with':
+                name = item['name']
+                f = P.resolve('invalidation::invalidate_with')
+                p = EnvFn('pred', lambda c, A, name=name: pred.verdict(name, deref_all(A[0])))
+                return run_single(ctx, I.call_fn(ctx, f, [Ref(Cell(Str(name), 'name')), p]))
             f = P.resolve('invalidation::invalidate_all_with')
             def pf(c, A):
                 cn = deref_all(A[0]); return pred.verdict(cn.t if isinstance(cn.t, str) else str(cn.t), deref_all(A[1]))
-            ret = run_single(ctx, I.call_fn(ctx, f, [EnvFn('pred2', pf)]))
-        post = {}
-        for n in used:
-            ks, qs = view(*snap[n]); post[n] = (list(ks), list(qs), [v for k, v in snap[n][0].items])
-        # ---- follow-up: one more call per used cache with its first stored argument tuple
-        follow = {}
-        if item.get('follow', True):
+            return run_single(ctx, I.call_fn(ctx, f, [EnvFn('pred2', pf)]))
+        def snap_now():
+            out = {}
+            for n in used:
+                ks, qs = view(*snap[n]); out[n] = (list(ks), list(qs), [v for k, v in snap[n][0].items])
+            return out
+        def follow_up():
+            fo = {}
             for n in used:
                 ne = len(ctx.events)
                 wrap.call_subject(I, ctx, subjs[n], args[n][0], 0)
-                follow[n] = len([e for e in ctx.events[ne:] if e[0] == 'exec'])
+                fo[n] = len([e for e in ctx.events[ne:] if e[0] == 'exec'])
+            return fo
+        ret = request()
+        post = snap_now()
+        follow = follow_up() if item.get('follow', True) else {}
+        second = None
+        if item.get('repeat'):
+            pre2 = snap_now(); ret2 = request(); post2 = snap_now(); follow2 = follow_up()
+            second = dict(pre=pre2, post=post2, ret=ret2, follow=follow2)
+        if second is not None:
+            return dict(subjs=subjs, used=used, pre=pre, post=post, ret=ret, pred=pred, args=args, follow=follow, second=second)
         return dict(subjs=subjs, used=used, pre=pre, post=post, ret=ret, pred=pred, args=args, follow=follow)
 
     outs, st = explore(run_path, seed=item.get('seed', 0), timeout_ms=20000 if item.get('tier') != 'thorough' else 120000, max_paths=4000)
@@ -145,7 +156,7 @@ def run(P, item):
                                           witness=inv_witness(ctx, model, item, d, cname)))
     return dict(paths=res['paths'], claims=res['claims'], failed=res['failed'], classes=sorted(res['classes']), funcs=sorted(res['funcs']), builtins=sorted(res['builtins']),
                 checks=st['checks'], solver_s=st['solver_s'], blocks=st['blocks'], infeasible=st['infeasible'],
-                tag=f"INV {mode} {item.get('kind2', '')}:{item.get('name', '*')} unused={sorted(item.get('unused', []))} fill={item.get('nfill', 2)}")
+                tag=f"INV {mode} {item.get('kind2', '')}:{item.get('name', '*')} unused={sorted(item.get('unused', []))} fill={item.get('nfill', 2)}{' x2' if item.get('repeat') else ''}")
 
 
 def same_keys(a, b):
@@ -154,8 +165,15 @@ def same_keys(a, b):
 
 
 def oracle(item, d, claims, classes, ctx):
+    _oracle_round(item, d, claims, classes, ctx, '')
+    if d.get('second'):
+        d2 = dict(d); d2.update(d['second'])
+        _oracle_round(item, d2, claims, classes, ctx, ' (second identical request after re-populating)')
+
+
+def _oracle_round(item, d, claims, classes, ctx, suffix):
     mode = item['mode']; subjs = d['subjs']; used = d['used']
-    def add(prop, clause, f, cname='*'): claims.append((prop, clause, f, cname))
+    def add(prop, clause, f, cname='*'): claims.append((prop, clause + suffix, f, cname))
     ret = d['ret']
     if mode == 'group':
         kind, name = item['kind2'], item['name']
@@ -221,7 +239,7 @@ def inv_witness(ctx, model, item, d, cname):
     w = dict(mode=item['mode'], kind2=item.get('kind2'), name=item.get('name'), cache=cname, unused=sorted(item.get('unused', [])),
              fills={n: [[ev(x) for x in t] for t in ts] for n, ts in d['args'].items()},
              pred=[(cn, render_key(k, ev), ev(b)) for cn, k, b in d['pred'].memo], ret=(ev(d['ret']) if d['ret'] is not None and not isinstance(d['ret'], Agg) else None),
-             post_keys={n: [render_key(k, ev) for k in d['post'][n][0]] for n in d['used']}, post_queue={n: [render_key(k, ev) for k in d['post'][n][1]] for n in d['used']},
+             repeat=bool(item.get('repeat')), post_keys={n: [render_key(k, ev) for k in d['post'][n][0]] for n in d['used']}, post_queue={n: [render_key(k, ev) for k in d['post'][n][1]] for n in d['used']},
              follow=d['follow'])
     return w
 
@@ -241,6 +259,11 @@ def replay(f, w):
         L.append('inv_with ' + w['name'] + ' ' + ' '.join(keys))
     else:
         L.append('inv_all_with ' + ' '.join(f"{cn}:{k.replace(' ', '%20')}" for cn, k, b in w['pred'] if b))
+    if w.get('repeat'):
+        reqline = L[-1]
+        for n, ts in w['fills'].items():
+            if ts: L.append(f"call 0 {n} 0 " + ' '.join(map(str, ts[0])))
+        L.append(reqline)
     names = {}
     for n in w['fills']:
         if subs[n]['flavour'] != 'T' and w['fills'][n]:
@@ -275,5 +298,6 @@ def replay(f, w):
     if w['mode'] == 'group' and inv:
         nm = len([n for n in w['fills'] if w['fills'][n] and matches(w['kind2'], w['name'], subs[n])])
         exp_ret = str(nm) if w['kind2'] != 'cache' else ('true' if nm else 'false')
-        if inv[0].split()[1] != exp_ret: dev.append(f"returned {inv[0].split()[1]} expected {exp_ret}")
+        for j, iv in enumerate(inv):
+            if iv.split()[1] != exp_ret: dev.append(f"request #{j + 1} returned {iv.split()[1]} expected {exp_ret}")
     return (len(dev) > 0), ('native run deviates from the attribute lists: ' + '; '.join(dev)) if dev else 'native run behaves as the attribute lists prescribe', lines
